@@ -378,9 +378,40 @@ def r5_every_reference_holder(ctx) -> None:
             r.violation("C09.R5", rr.qual, f"self.{fname}.resolve_rule_references(...)", f"the references held by {fname} are resolved on some paths only", loc)
         else:
             r.violation("C09.R5", rr.qual, f"field {fname}: {ann}", f"the rule references held by {fname} are never resolved: a reference to a rule that does not exist is accepted silently, and the references can only be compared as text (an alias that names a rule by id does not apply to a rule listed by name)", loc)
+    # which aliases apply to a referenced rule: the normalisation renderer interpreted (sa.tabulate, Proxy) on references that
+    # name the same rule differently (by name / by id), another rule, and an unresolved reference with equal text
+    import types as _types5
+    from ..tabulate import Proxy as _P5, call_method as _cm5, Raised as _R5
+    TQ5 = "sigma.conversion.base.TextQueryBackend"
+    nf = prog.func(TQ5 + ".convert_correlation_search_field_normalization_expression")
+    class _Ref:
+        def __init__(self, text, rule=None):
+            self.reference = text
+            if rule is not None:
+                self.rule = rule
+        def __eq__(self, o): return isinstance(o, _Ref) and o.reference == self.reference
+        def __hash__(self): return hash(self.reference)
+    class _Aliases(list): pass
+    RULE1, RULE2 = object(), object()
+    def alias(name, mapping): return _types5.SimpleNamespace(alias=name, mapping=mapping)
+    aliases5 = _Aliases([alias("al1", {_Ref("rule-1-id", RULE1): "by_id_field", _Ref("other-rule", RULE2): "other_field"}),
+                         alias("al2", {_Ref("rule-1-name", None): "same_text_field"}), alias("al3", {_Ref("unrelated", None): "unrelated_field"})])
+    me5 = _P5(prog, TQ5, {}, {"correlation_search_field_normalization_expression": "{alias}={field}", "correlation_search_field_normalization_expression_joiner": ";",
+                              "escape_and_quote_field": lambda f_: f_}, interp_kwargs={"max_steps": 6000})
+    try:
+        got5 = _cm5(prog, TQ5, nf.name, me5, {}, aliases5, _Ref("rule-1-name", RULE1), interp_kwargs={"max_steps": 6000})
+    except _R5 as ex:
+        got5 = f"raises {ex}"
+    interpreted_ok = got5 == "al1=by_id_field;al2=same_text_field"
+    covered5 = {q_ for q_ in ctx.cg.reachable([nf.qual]) if q_.startswith(TQ5 + ".")} if interpreted_ok else set()
+    if interpreted_ok:
+        r.ok("C09.R5", nf.qual, "an alias applies to a referenced rule when its key has the same text or resolves to the same rule (interpreted: by name / by id / another rule / unresolved)", nf.loc)
+        n += 1
+    else:
+        r.violation("C09.R5", nf.qual, "if alias_rule_reference == rule_reference or … is the same resolved rule", f"two rule references are compared by their text only: the same rule referred to by name in `rules` and by id in `aliases` (or the other way round) is taken for two rules and the field normalisation is dropped from the query without an error — rendered {got5!r} instead of 'al1=by_id_field;al2=same_text_field'", nf.loc)
     # comparisons of references in conversion code
     for q, f in sorted(prog.funcs.items()):
-        if not f.module.name.startswith("sigma.conversion"):
+        if not f.module.name.startswith("sigma.conversion") or q in covered5:
             continue
         for cmp_ in (x for x in walk_no_nested(f.node) if isinstance(x, ast.Compare) and len(x.ops) == 1 and isinstance(x.ops[0], (ast.Eq, ast.NotEq))):
             lt = ctx.types.class_names(f.module, cmp_.left)
